@@ -154,7 +154,8 @@ class Default(AgentStagingInputComponent):
             self._prof.prof('staging_in_start', uid=uid, msg=did)
 
             # agent stager only handles local actions
-            if action not in [rpc.COPY, rpc.LINK, rpc.MOVE, rpc.DOWNLOAD]:
+            if action not in [rpc.COPY, rpc.LINK, rpc.MOVE, rpc.DOWNLOAD,
+                              rpc.TARBALL]:
                 self._prof.prof('staging_in_skip', uid=uid, msg=did)
                 continue
 
@@ -185,7 +186,8 @@ class Default(AgentStagingInputComponent):
                 # path is expected to be an *absolute* path on the target system
                 # - any relative paths specified by the application are expected
                 # to get expanded on the client side.
-                tarball = '%s/%s.tar' % (os.path.dirname(tgt.path), uid)
+                # The client stages the tarball to `task:///<uid>.tar`.
+                tarball = '%s/%s.tar' % (task_sandbox.path, uid)
                 self._log.debug('extract tarball for %s', tarball)
                 tar = tarfile.open(tarball)
                 tar.extractall(path='/')
